@@ -712,6 +712,7 @@ static void exec_op(const Op &op) {
 		End &x = R->e[i];
 		if (x.tx_closed) break;
 		size_t n = (size_t)op.a[1];
+		if (vk::net.seg_size <= 3 && vk::net.seg_mode != 0 && n > 30000) { n = 30000; probe("size-capped-for-tiny-segments"); }
 		std::string s(n, 0);
 		for (size_t j = 0; j < n; j++) s[j] = (char)stream_byte(x.id, x.sent + j);
 		int r = API(bufferevent_write(x.bev, s.data(), n));
@@ -867,6 +868,7 @@ static void exec_op(const Op &op) {
 		End &x = R->e[i];
 		if (x.tx_closed) break;
 		size_t n = (size_t)op.a[1];
+		if (vk::net.seg_size <= 3 && n > 30000) { n = 30000; probe("size-capped-for-tiny-segments"); }	// half a megabyte in 1-byte segments is a million simulator events: the run would only hit the watchdog
 		for (size_t j = 0; j < n; j++) x.ep_pending += (char)stream_byte(x.id, x.sent + j);
 		x.sent += n;
 		ep_push(x);
